@@ -315,48 +315,48 @@ pub fn checks() -> Vec<Box<dyn Check>> {
             id: "C01",
             claims: &["C01"],
             profile: p_c01,
-            quick_runs: 30_000,
-            thorough_runs: 400_000,
+            quick_runs: 60_000,
+            thorough_runs: 1_200_000,
             focus: "all command kinds, binary values, flags, TTLs and clock advances",
         }),
         Box::new(ModelCheck {
             id: "C02",
             claims: &["C02"],
             profile: p_c02,
-            quick_runs: 30_000,
-            thorough_runs: 400_000,
+            quick_runs: 60_000,
+            thorough_runs: 1_200_000,
             focus: "CAS-carrying variants of every mutation with current / stale / shifted / arbitrary tokens",
         }),
         Box::new(ModelCheck {
             id: "C05",
             claims: &["C05"],
             profile: p_c05,
-            quick_runs: 30_000,
-            thorough_runs: 400_000,
+            quick_runs: 60_000,
+            thorough_runs: 1_200_000,
             focus: "stores with TTLs, clock advances aimed at expiry-1 / expiry / expiry+1, delayed flushes",
         }),
         Box::new(ModelCheck {
             id: "C06",
             claims: &["C06"],
             profile: p_c06,
-            quick_runs: 30_000,
-            thorough_runs: 400_000,
+            quick_runs: 60_000,
+            thorough_runs: 1_200_000,
             focus: "add / replace / append / prepend on absent, present, expired, deleted and flushed keys",
         }),
         Box::new(ModelCheck {
             id: "C07",
             claims: &["C07"],
             profile: p_c07,
-            quick_runs: 30_000,
-            thorough_runs: 400_000,
+            quick_runs: 60_000,
+            thorough_runs: 1_200_000,
             focus: "incr / decr over decimal values across the u64 range, odd numerals, extreme deltas, creation rules",
         }),
         Box::new(ModelCheck {
             id: "C08",
             claims: &["C08"],
             profile: p_c08,
-            quick_runs: 30_000,
-            thorough_runs: 400_000,
+            quick_runs: 60_000,
+            thorough_runs: 1_200_000,
             focus: "deletes (cas 0 / matching / stale), immediate and delayed flushes, re-stores",
         }),
     ]
